@@ -9718,6 +9718,11 @@ CK_RV SoftHSM::generateDH
 		switch (pPrivateKeyTemplate[i].type)
 		{
 			case CKA_VALUE_BITS:
+				if (pPrivateKeyTemplate[i].ulValueLen != sizeof(CK_ULONG))
+				{
+					INFO_MSG("CKA_VALUE_BITS does not have the size of CK_ULONG");
+					return CKR_ATTRIBUTE_VALUE_INVALID;
+				}
 				bitLen = *(CK_ULONG*)pPrivateKeyTemplate[i].pValue;
 				break;
 			default:
